@@ -35,6 +35,7 @@ func init() {
 			{ID: "C17.12", Desc: "the decoded key is not wiped before it is used (no cleared buffer is returned)", Run: func(c *Ctx) { ruleKeyNotWiped(c, "C17.12") }, MinSites: 1},
 			{ID: "C17.13", Desc: "the minimum ciphertext length is the AEAD's (short values are not rejected as tampered)", Run: func(c *Ctx) { ruleCiphertextMinLength(c, "C17.13") }, MinSites: 1},
 			{ID: "C17.14", Desc: "an unusable key fails at open: the constructor's error is returned by the option", Run: func(c *Ctx) { ruleOptionReturnsConstructorError(c, "C17.14") }, MinSites: 1},
+			{ID: "C17.15", Desc: "the file-system backend keeps no package-level container of connections (every open uses its own key and encryption setting)", Run: func(c *Ctx) { ruleNoSharedConnections(c, "C17.15") }, MinSites: 1},
 		},
 	})
 }
